@@ -78,7 +78,8 @@ function genProgram (rng, opts = {}) {
   if (opts.module) lines.push(`export { host as default }; export * from ${lit()}`)
   // multi-line layout: some statements split
   let code = lines.join(nl) + nl
-  if (rng.bool(0.5)) code = code.replace(/, /g, () => rng.bool(0.15) ? ',' + nl + '    ' : ', ')
+  // (some continuation lines carry no indentation: the next token - often a literal - then sits at column 1)
+  if (rng.bool(0.5)) code = code.replace(/, /g, () => rng.bool(0.15) ? ',' + nl + rng.pick(['    ', '    ', '', '\t']) : ', ')
   // how the file ENDS: with a line break (usual), with nothing after the last token, or with a literal whose closing quote is
   // the very last byte of the file; and how it BEGINS: a literal at offset 0
   const ending = rng.int(6)
